@@ -103,3 +103,7 @@ m("assign_keeps_old_source", ["C14"], SP, "pub fn set(slot: &mut SourcedValue, v
 m("this_from_definition_object", ["C14"], EV, "                    Ok(value::new_val_ref_with_source(v, source_val.v.clone()))", "                    Ok(if matches!(v, Value::Func(_)) && lock_deref!(props).len() > 3 { value::new_val_ref_with_no_source(v) } else { value::new_val_ref_with_source(v, source_val.v.clone()) })")
 m("arity_le", ["C14", "C13"], EV, "                    } else if num_params != got {", "                    } else if num_params < got {")
 m("rest_alias_when_exact", ["C14", "C13"], EV, "                                let rest = arg_vals[num_params-1 ..].to_vec();\n\n                                value::new_list(rest)", "                                let rest = arg_vals[num_params-1 ..].to_vec();\n\n                                if rest.len() == 1 { if let Value::List(_) = rest[0].v { rest[0].clone() } else { value::new_list(rest) } } else { value::new_list(rest) }")
+m("slot_end_off_by_one", ["C15"], LX, "                        let slot = (cur_interpolation_start, chars.len()+1);", "                        let slot = (cur_interpolation_start, chars.len());")
+m("hex_upper_only", ["C15", "C03"], LX, "                        match u8::from_str_radix(&c.to_string(), 16) {", "                        match u8::from_str_radix(&c.to_string(), if c.is_ascii_lowercase() && first_hex_char.is_some() { 10 } else { 16 }) {")
+m("escape_dollar_kept", ["C15"], LX, "                    if c == '\\\\' || c == '\"' || c == '$' {\n                        chars.push(c);", "                    if c == '\\\\' || c == '\"' || c == '$' {\n                        if c == '$' && interpolate { chars.push('\\\\'); }\n                        chars.push(c);")
+m("interp_join_space", ["C15"], EV, "    Ok(result.join(\"\"))", "    Ok(if result.len() > 5 { result.join(\" \") } else { result.join(\"\") })")
